@@ -189,6 +189,10 @@ impl ServerState {
             while let Ok(msg) = rx.recv() {
                 match msg {
                     TaskMessage::CompilationContext(ctx) => {
+                        // A cancellation signal that is still set when a request is received was aimed
+                        // at an older compilation (it may have been stored after that compilation had
+                        // already finished). It must not abort this, newer, request.
+                        retrigger_compilation.store(false, Ordering::SeqCst);
                         let uri = &ctx.uri;
                         let path = uri.to_file_path().unwrap();
                         #[cfg(feature = "verif")]
